@@ -4,3 +4,5 @@ import AiutiVerif.Split.Props
 import AiutiVerif.Split.Drive
 import AiutiVerif.Parse.Props
 import AiutiVerif.Parse.Drive
+import AiutiVerif.Gather.Props
+import AiutiVerif.Gather.Drive
